@@ -245,6 +245,9 @@ def run(P, R, tier):
     scan_rule(P, R)
     basicraw_rule(P, R)
     loadwarn_rule(P, R)
+    warnbudget_rule(P, R)
+    reentry_rule(P, R)
+    scancount_rule(P, R)
     replacegrow_rule(P, R)
     stdthrow_census(P, R, reach)
 
@@ -1431,3 +1434,149 @@ def stdthrow_census(P, R, reach):
                     sites.append("%s:%d %s" % (f["file"], c[1], cd.get("q", "")[:50]))
     R.info["std_functions_that_may_throw_out_of_range_or_invalid_argument"] = {"count": len(sites), "sample": sorted(sites)[:40],
                                                                                "note": "informational census: each is a potential escaping std::exception; not a verdict"}
+
+
+def warnbudget_rule(P, R):
+    """"The error and warning strings describe that call only": Phreeqc::warning_msg counts warnings and drops every warning
+    once the count exceeds the PRINT -warnings budget.  The budget is per simulation: read_input - which every simulation of
+    every call starts with - must reset the counter on every path, otherwise warnings of one call are suppressed because of
+    what earlier calls reported.  The counter is discovered from warning_msg (member incremented there and compared in a
+    test that leads to an early return), not named here."""
+    RULE = "C08.warnbudget"
+    R.rule(RULE, "the counter that lets warning_msg drop warnings beyond the PRINT -warnings budget is reset by read_input on every path", minimum=1)
+    f = P.one("Phreeqc::warning_msg")
+    inc = set()
+    for t, how, line, n in T.writes(f["body"]):
+        root, steps = T.access_path(t)
+        if how == "++" and steps and len(steps) == 1 and steps[0][0] == "f":
+            inc.add(steps[0][1])
+    gates = set()
+    for x in T.walk(f["body"]):
+        if x[0] == "If" and any(y[0] == "Return" for y in T.walk(x[3])):
+            for y in T.walk(x[2]):
+                if y[0] == "Member" and y[2] in inc:
+                    gates.add(y[2])
+    if not gates:
+        R.anchor_missing(RULE, "warning_msg no longer has a counter that gates an early return")
+        return
+    g = P.one("Phreeqc::read_input")
+    cfg = T.CFG(g)
+    dom = cfg.dominators()
+    for m in sorted(gates):
+        resets = []
+        for nd in cfg.nodes:
+            if not T.is_node(nd["n"]):
+                continue
+            for t, how, line, n in T.writes(nd["n"]):
+                root, steps = T.access_path(t)
+                if how == "=" and steps == [("f", m)] and T.lit_value(n[4]) == 0:
+                    resets.append(nd["id"])
+        inst = m.split("::")[-1]
+        if resets and any(r in dom.get(cfg.exit, ()) for r in resets):
+            R.ok(RULE, inst, "read_input assigns %s = 0 on every path (the assignment dominates its exit)" % inst)
+        else:
+            R.violation(RULE, inst, "warning_msg drops warnings once %s exceeds pr.warnings, and read_input does not reset it on every path: warnings of a call are "
+                        "suppressed because of warnings reported by earlier simulations or calls" % inst, file=g["file"], line=g["line"], function=g["q"])
+
+
+def reentry_rule(P, R):
+    """"Any byte sequence ... no crash": a function that runs a BASIC program (calls basic_run) and is itself reachable from the
+    BASIC interpreter can be re-entered by the program it runs - user text decides the recursion depth.  Each such function needs
+    a re-entrancy guard: a flag of the object whose program runs, tested before basic_run on a path that ends in an error, and
+    set while the program runs."""
+    from ..callgraph import CallGraph
+    RULE = "C08.reentry"
+    R.rule(RULE, "functions that run a BASIC program and can be called from BASIC test a re-entrancy flag before running it", minimum=1)
+    cg = CallGraph(P)
+    roots = [k for k, g in P.functions.items() if g["q"] == "PBasic::basic_run"]
+    if not roots:
+        R.anchor_missing(RULE, "PBasic::basic_run not found")
+        return
+    reach = cg.reach_from(roots)
+    runners = [k for k, g in P.functions.items() if k in reach and any(T.callee_q(c) in ("PBasic::basic_run", "Phreeqc::basic_run") for c in T.calls(g["body"]))]
+    R.table("C08.reentry.census", {"runners_reachable_from_basic": [P.functions[k]["q"] for k in runners]})
+    if not runners:
+        R.anchor_missing(RULE, "no function that runs BASIC is reachable from BASIC (get_calculate_value expected)")
+        return
+    for k in sorted(runners):
+        g = P.functions[k]
+        run_line = min(c[1] for c in T.calls(g["body"]) if T.callee_q(c) in ("PBasic::basic_run", "Phreeqc::basic_run"))
+        guard = None
+        for x in T.walk(g["body"]):
+            if x[0] != "If" or x[1] >= run_line:
+                continue
+            body_ = x[3][2] if T.is_node(x[3]) and x[3][0] == "Compound" else [x[3]]
+            last = body_[-1] if body_ else None
+            stops = T.is_node(last) and (last[0] in ("Return", "Throw") or (last[0] == "Call" and T.callee_name(last) == "error_msg" and len(last[4]) >= 2
+                                                                         and T.lit_value(T.strip_casts(last[4][1])) == 1))
+            if not stops:
+                continue
+            cnd = T.strip_casts(x[2])
+            if T.is_node(cnd) and cnd[0] == "Paren":
+                cnd = T.strip_casts(cnd[2])
+            if T.is_node(cnd) and cnd[0] == "Bin" and cnd[2] in ("==", "!="):
+                cnd = T.strip_casts(cnd[3]) if T.lit_value(T.strip_casts(cnd[4])) is not None else None
+            if not (T.is_node(cnd) and cnd[0] == "Member"):
+                continue            # not a plain flag test
+            flags = [cnd[2]] if cnd[2].split("::")[0] != "Phreeqc" else []
+            for fl in flags:
+                # the flag must be set somewhere in this function (directly or in a local guard object constructed from it)
+                sets = any(True for t, how, line, n in T.writes(g["body"]) if how in ("=", "ref") and any(y[0] == "Member" and y[2] == fl for y in T.walk(t)))
+                passed = any(x2[0] in ("Construct", "Call", "Decl", "Var") and any(y[0] == "Member" and y[2] == fl for y in T.walk(x2)) and x2[1] > x[1] and x2[1] <= run_line for x2 in T.walk(g["body"]))
+                if sets or passed:
+                    guard = (fl, x[1])
+        inst = g["q"].split("::")[-1]
+        if guard:
+            R.ok(RULE, inst, "tests %s (line %d) and stops before it runs the program again" % guard)
+        else:
+            R.violation(RULE, inst, "%s runs a BASIC program and can be called from BASIC (CALC_VALUE), but has no re-entrancy guard: a definition that uses its own value recurses "
+                        "until the stack overflows (process crash)" % g["q"], file=g["file"], line=run_line, function=g["q"])
+
+
+def scancount_rule(P, R):
+    """A count scanned from input text with sscanf("%d") and then used to size a container (resize / reserve / PHRQ_malloc) can be
+    negative: resize(n + 1) with n = -2 throws std::length_error, which escapes the API.  Between the scan and the sizing call
+    the function must test the sign of the count (a relational comparison of the scanned variable with a literal)."""
+    RULE = "C08.scancount"
+    R.rule(RULE, "a count scanned from input is sign-checked before it sizes a container", minimum=2)
+
+    def key(n):
+        n = T.strip_casts(n)
+        if T.is_node(n) and n[0] == "Member":
+            return n[2]
+        if T.is_node(n) and n[0] == "Ref":
+            return n[3]
+        return None
+    n_inst = 0
+    for k, g in sorted(P.functions.items()):
+        scanned = {}
+        for c in T.calls(g["body"]):
+            if T.callee_name(c) == "sscanf" and len(c[4]) >= 3:
+                for a in c[4][2:]:
+                    a = T.strip_casts(a)
+                    if T.is_node(a) and a[0] == "Un" and a[2] == "&" and key(a[3]):
+                        scanned[key(a[3])] = max(scanned.get(key(a[3]), 0), c[1])
+        if not scanned:
+            continue
+        for c in T.calls(g["body"]):
+            if T.callee_name(c) not in ("resize", "reserve", "assign", "PHRQ_malloc", "PHRQ_calloc", "PHRQ_realloc"):
+                continue
+            for a in c[4]:
+                for v in {key(y) for y in T.walk(a) if T.is_node(y) and y[0] in ("Member", "Ref")} & set(scanned):
+                    if c[1] < scanned[v]:
+                        continue
+                    n_inst += 1
+                    inst = "%s:%s@%d" % (g["q"].split("::")[-1], v.split("::")[-1], c[1])
+                    ok = False
+                    for x in T.walk(g["body"]):
+                        if x[0] == "If" and x[1] <= c[1]:
+                            for y in T.walk(x[2]):
+                                if y[0] == "Bin" and y[2] in ("<", "<=", ">", ">=") and ((key(y[3]) == v and T.lit_value(T.strip_casts(y[4])) is not None) or (key(y[4]) == v and T.lit_value(T.strip_casts(y[3])) is not None)):
+                                    ok = True
+                    if ok:
+                        R.ok(RULE, inst, "sign of %s tested before %s(%s)" % (v.split("::")[-1], T.callee_name(c), T.text(a)[:30]))
+                    else:
+                        R.violation(RULE, inst, "%s is scanned from input (line %d) and sizes a container with %s(%s) without a sign test: a negative count makes the call throw "
+                                    "std::length_error / bad_alloc out of the API" % (v, scanned[v], T.callee_name(c), T.text(a)[:40]), file=g["file"], line=c[1], function=g["q"])
+    if n_inst < 2:
+        R.anchor_missing(RULE, "only %d scanned counts that size a container (read_advection: 2)" % n_inst)
